@@ -46,8 +46,16 @@ func (p *BinaryProtocol) Skip(wireType proto.WireType, useNative bool) (err erro
 	return
 }
 
-// fast skip all elements in LIST/MAP
+// SkipAllElements skips all the elements of the LIST/MAP field that starts at the read position and returns
+// their number. The elements of a packed list are taken for varints; use SkipAllElementsOf for packed lists
+// of other element kinds.
 func (p *BinaryProtocol) SkipAllElements(fieldNumber proto.FieldNumber, ispacked bool) (size int, err error) {
+	return p.SkipAllElementsOf(fieldNumber, ispacked, proto.VarintType)
+}
+
+// SkipAllElementsOf is SkipAllElements for a list whose elements have the wire type elemWire: a packed list
+// of fixed32 / fixed64 / float / double values is a run of 4- or 8-byte elements, not of varints.
+func (p *BinaryProtocol) SkipAllElementsOf(fieldNumber proto.FieldNumber, ispacked bool, elemWire proto.WireType) (size int, err error) {
 	size = 0
 	if ispacked {
 		if _, _, _, err := p.ConsumeTag(); err != nil {
@@ -58,11 +66,18 @@ func (p *BinaryProtocol) SkipAllElements(fieldNumber proto.FieldNumber, ispacked
 			return -1, err
 		}
 		start := p.Read
+		if bytelen < 0 || bytelen > len(p.Buf)-start {
+			return -1, errDecodeField
+		}
 		for p.Read < start+int(bytelen) {
-			if _, err := p.ReadVarint(); err != nil {
+			if err := p.Skip(elemWire, false); err != nil {
 				return -1, err
 			}
 			size++
+		}
+		if p.Read != start+int(bytelen) {
+			// the last element runs past the end of the list
+			return -1, errDecodeField
 		}
 	} else {
 		for p.Read < len(p.Buf) {
